@@ -1386,3 +1386,40 @@ impl Searcher {{
                          fbody, fbody, ['function::get_value / function::get_aggregate_value -> recording stubs; Function -> shim with is_aggregate_function()'],
                          'the aggregate and scalar implementations themselves (C07.*, C16.*)')
     return dict(functions=[r, r2], dropped=[d, d2])
+
+
+# --------------------------------------------------------------------------------------------------
+# list_search_results(): per-root set-up; visit_dir(): prologue (C01) - verbatim on a shim world
+# --------------------------------------------------------------------------------------------------
+def unit_traversal(inj, scratch):
+    frag_begin(inj)
+    s = src('src/searcher.rs', scratch)
+    it = s.fn('list_search_results', impl='Searcher')
+    a, o, c = s.block_after(r'for\s+root\s+in\s+roots\s*\{', s.body_span(it), what='list_search_results: for root in roots {')
+    loop_body = dedent(s.text[o:c + 1])
+    it2 = s.fn('visit_dir', impl='Searcher')
+    ms = s.find_all(r'let\s+canonical_path\s*=', s.body_span(it2))
+    if not ms:
+        raise AnchorLost('visit_dir: let canonical_path = .. not found')
+    m = ms[0]
+    prologue = dedent(s.text[it2['open'] + 1:m.start()].strip())
+    text = f'''pub mod traversal {{
+{H('frag_traversal_prelude.rs')}
+impl Searcher {{
+    // ---- verbatim: body of `for root in roots {{ .. }}` in Searcher::list_search_results ----
+    pub fn frag_per_root(&mut self, root: Root) {loop_body}
+    // ---- verbatim: the statements of Searcher::visit_dir in front of `let canonical_path = ..` ----
+    pub fn frag_prologue(&mut self, dir: &Path, min_depth: u32, max_depth: u32, root_depth: u32) -> Result<(), u8> {{
+        {prologue}
+        Err(1)
+    }}
+}}
+{H('frag_traversal.kani.rs')}
+}}
+'''
+    inj.new_file(FRAG_FILE, text)
+    r, d = frag_record('traversal::Searcher::frag_per_root', 'src/searcher.rs', 'fn list_search_results / body of `for root in roots {..}` (verbatim, on a shim world)',
+                       loop_body, loop_body, ['Searcher / Root / Path / Repository / metadata -> shim types; visit_dir records its arguments'], 'regexp roots expansion, the traversal itself')
+    r2, d2 = frag_record('traversal::Searcher::frag_prologue', 'src/searcher.rs', 'fn visit_dir / all statements in front of `let canonical_path = ..` (verbatim); falling through is signalled by Err(1)',
+                         prologue, prologue, ['visited_dirs -> shim set'], 'the rest of visit_dir')
+    return dict(functions=[r, r2], dropped=[d, d2])
